@@ -1065,7 +1065,7 @@ def gen_cases2(tier, rng):
             cases.append(dict(kind="h2-copy", n=3, k=2, views=True, skip=len(PRE2),
                               ops=PRE2 + [["copy", 0, 2, rng.choice(["deep", "copy"])], m, ["q", 2, "inc", False, "kw"], ["q", 2, "splist"]]))
     # (C) random histories over the overlapping vocabulary
-    for _ in range(500 if tier == "quick" else 2500):
+    for _ in range(500 if tier == "quick" else 1500):
         cases.append(dict(kind="h2-random", n=3, k=2, views=rng.random() < 0.5, ops=_rand_hist2(rng, 24 if tier == "quick" else 40, 3)))
     cases.append(big_case())
     return cases
